@@ -4,23 +4,28 @@
 import OFV.Model.Symbolic
 import OFV.Proofs.GQAlgebra
 
+set_option linter.unusedSectionVars false
+
 namespace OFV
 namespace Model
 open GQ
 
-/-- `⟦A⟧_φ = Σ_{(τ,c) ∈ A} c · φ τ`; with `φ τ = ⟨t|τ|s⟩` this is the matrix element of `A`. -/
-def den (φ : Term → GQ) (A : Op) : GQ := A.foldr (fun e acc => e.2 * φ e.1 + acc) 0
+section generic
+variable {κ : Type} [DecidableEq κ]
 
-@[simp] theorem den_nil (φ : Term → GQ) : den φ [] = 0 := rfl
-@[simp] theorem den_cons (φ : Term → GQ) (e : Term × GQ) (A : Op) :
+/-- `⟦A⟧_φ = Σ_{(τ,c) ∈ A} c · φ τ`; with `φ τ = ⟨t|τ|s⟩` this is the matrix element of `A`. -/
+def den (φ : κ → GQ) (A : List (κ × GQ)) : GQ := A.foldr (fun e acc => e.2 * φ e.1 + acc) 0
+
+@[simp] theorem den_nil (φ : κ → GQ) : den φ [] = 0 := rfl
+@[simp] theorem den_cons (φ : κ → GQ) (e : κ × GQ) (A : List (κ × GQ)) :
     den φ (e :: A) = e.2 * φ e.1 + den φ A := rfl
 
-theorem den_append (φ : Term → GQ) (A B : Op) : den φ (A ++ B) = den φ A + den φ B := by
+theorem den_append (φ : κ → GQ) (A B : List (κ × GQ)) : den φ (A ++ B) = den φ A + den φ B := by
   induction A with
   | nil => simp [zero_add']
   | cons e A ih => simp [ih, add_assoc']
 
-theorem den_set_absent (φ : Term → GQ) (d : Op) (k : Term) (c : GQ) (h : Dict.get? d k = none) :
+theorem den_set_absent (φ : κ → GQ) (d : List (κ × GQ)) (k : κ) (c : GQ) (h : Dict.get? d k = none) :
     den φ (Dict.set d k c) = den φ d + c * φ k := by
   induction d with
   | nil => simp [Dict.set, add_zero', zero_add']
@@ -32,7 +37,7 @@ theorem den_set_absent (φ : Term → GQ) (d : Op) (k : Term) (c : GQ) (h : Dict
     · rename_i hne
       simp only [Dict.set, hne, if_false, den_cons, ih h, add_assoc']
 
-theorem den_set_present (φ : Term → GQ) (d : Op) (k : Term) (v w : GQ) (h : Dict.get? d k = some v) :
+theorem den_set_present (φ : κ → GQ) (d : List (κ × GQ)) (k : κ) (v w : GQ) (h : Dict.get? d k = some v) :
     den φ (Dict.set d k w) + v * φ k = den φ d + w * φ k := by
   induction d with
   | nil => simp [Dict.get?] at h
@@ -48,25 +53,71 @@ theorem den_set_present (φ : Term → GQ) (d : Op) (k : Term) (v w : GQ) (h : D
     · rename_i hne
       simp only [Dict.set, hne, if_false, den_cons, add_assoc', ih h]
 
+/-- generic `result[k] += c` -/
+def gaccum (d : List (κ × GQ)) (k : κ) (c : GQ) : List (κ × GQ) :=
+  match Dict.get? d k with
+  | some v => Dict.set d k (v + c)
+  | none => Dict.set d k c
+
+theorem add_right_cancel' (x y z : GQ) (h : x + z = y + z) : x = y := by
+  have := congrArg (· + -z) h
+  simp only [add_assoc', add_neg_cancel', add_zero'] at this
+  exact this
+
 /-- `result[k] += c` adds `c · φ k` to the denotation. -/
-theorem den_accum (φ : Term → GQ) (d : Op) (k : Term) (c : GQ) :
-    den φ (accum d k c) = den φ d + c * φ k := by
-  unfold accum
+theorem den_gaccum (φ : κ → GQ) (d : List (κ × GQ)) (k : κ) (c : GQ) :
+    den φ (gaccum d k c) = den φ d + c * φ k := by
+  unfold gaccum
   cases h : Dict.get? d k with
   | none => exact den_set_absent φ d k c h
   | some v =>
     have := den_set_present φ d k v (v + c) h
     rw [add_mul'] at this
-    -- den(set) + vφ = den d + (vφ + cφ)
     have e : den φ (Dict.set d k (v + c)) + v * φ k = (den φ d + c * φ k) + v * φ k := by
       rw [this, add_assoc', add_comm' (v * φ k)]
-    -- cancel v φ k on the right
-    have cancel : ∀ x y z : GQ, x + z = y + z → x = y := by
-      intro x y z hxy
-      have := congrArg (· + -z) hxy
-      simp only [add_assoc', add_neg_cancel', add_zero'] at this
-      exact this
-    exact cancel _ _ _ e
+    exact add_right_cancel' _ _ _ e
+
+theorem den_map_smul (φ : κ → GQ) (c : GQ) (A : List (κ × GQ)) :
+    den φ (A.map fun e => (e.1, e.2 * c)) = c * den φ A := by
+  induction A with
+  | nil => simp [mul_zero']
+  | cons e A ih =>
+    simp only [List.map_cons, den_cons] at ih ⊢
+    rw [ih, mul_add', ← mul_assoc', mul_comm' c e.2]
+
+/-- generic double loop with accumulation is the bilinear extension of `(key, factor)` -/
+theorem den_double_loop (φ : κ → GQ) (pr : κ → κ → κ × GQ) (A B : List (κ × GQ)) (acc0 : List (κ × GQ)) :
+    den φ (A.foldl (fun acc (l : κ × GQ) =>
+        B.foldl (fun acc2 (r : κ × GQ) =>
+          gaccum acc2 (pr l.1 r.1).1 (l.2 * r.2 * (pr l.1 r.1).2)) acc) acc0) =
+      den φ acc0 + A.foldr (fun l acc' => B.foldr (fun r acc2 =>
+          l.2 * r.2 * ((pr l.1 r.1).2 * φ (pr l.1 r.1).1) + acc2) 0 + acc') 0 := by
+  have inner : ∀ (l : κ × GQ) (B : List (κ × GQ)) (acc : List (κ × GQ)),
+      den φ (B.foldl (fun acc2 (r : κ × GQ) =>
+          gaccum acc2 (pr l.1 r.1).1 (l.2 * r.2 * (pr l.1 r.1).2)) acc) =
+        den φ acc + B.foldr (fun r acc2 =>
+          l.2 * r.2 * ((pr l.1 r.1).2 * φ (pr l.1 r.1).1) + acc2) 0 := by
+    intro l B
+    induction B with
+    | nil => intro acc; simp [add_zero']
+    | cons e B ih =>
+      intro acc
+      simp only [List.foldl_cons, List.foldr_cons]
+      rw [ih, den_gaccum]
+      simp only [add_assoc', mul_assoc']
+  induction A generalizing acc0 with
+  | nil => simp [add_zero']
+  | cons l A ih =>
+    simp only [List.foldl_cons, List.foldr_cons]
+    rw [ih, inner, add_assoc']
+
+end generic
+
+theorem accum_eq (d : Op) (k : Term) (c : GQ) : accum d k c = gaccum d k c := rfl
+theorem maccum_eq (d : MOp) (k : MTerm) (c : GQ) : maccum d k c = gaccum d k c := rfl
+
+theorem den_accum (φ : Term → GQ) (d : Op) (k : Term) (c : GQ) :
+    den φ (accum d k c) = den φ d + c * φ k := den_gaccum φ d k c
 
 theorem den_smul (φ : Term → GQ) (c : GQ) (A : Op) : den φ (smul c A) = c * den φ A := by
   induction A with
@@ -112,7 +163,7 @@ theorem den_mulOp (cls : Cls) (φ : Term → GQ) (A B : Op) :
   simpa [zero_add'] using this
 
 
-theorem den_erase_present (φ : Term → GQ) (d : Op) (k : Term) (v : GQ) (h : Dict.get? d k = some v) :
+theorem den_erase_present {κ : Type} [DecidableEq κ] (φ : κ → GQ) (d : List (κ × GQ)) (k : κ) (v : GQ) (h : Dict.get? d k = some v) :
     den φ (Dict.erase d k) + v * φ k = den φ d := by
   induction d with
   | nil => simp [Dict.get?] at h
@@ -125,7 +176,7 @@ theorem den_erase_present (φ : Term → GQ) (d : Op) (k : Term) (v : GQ) (h : D
     · rename_i hne
       simp only [Dict.erase, hne, if_false, den_cons, add_assoc', ih h]
 
-theorem erase_absent (d : Op) (k : Term) (h : Dict.get? d k = none) : Dict.erase d k = d := by
+theorem erase_absent {κ : Type} [DecidableEq κ] (d : List (κ × GQ)) (k : κ) (h : Dict.get? d k = none) : Dict.erase d k = d := by
   induction d with
   | nil => rfl
   | cons e d ih =>
@@ -134,11 +185,6 @@ theorem erase_absent (d : Op) (k : Term) (h : Dict.get? d k = none) : Dict.erase
     split at h
     · cases h
     · rename_i hne; simp only [Dict.erase, hne, if_false, ih h]
-
-theorem add_right_cancel' (x y z : GQ) (h : x + z = y + z) : x = y := by
-  have := congrArg (· + -z) h
-  simp only [add_assoc', add_neg_cancel', add_zero'] at this
-  exact this
 
 /-- one step of `__iadd__` / `__isub__` (`self[t] = self.get(t, 0) + c`, deleted when small):
 in the exact regime (the sum is small only when it is 0) it adds `c · φ t`. -/
@@ -224,6 +270,23 @@ theorem den_map_neg (φ : Term → GQ) (B : Op) :
   | cons e B ih =>
     simp only [List.map_cons, den_cons, ih, neg_mul']
     apply GQ.ext <;> simp <;> grind
+
+
+/-- **Majorana products**: `MajoranaOperator.__mul__` is the bilinear extension of the signed merge -/
+theorem den_mmul (φ : MTerm → GQ) (A B : MOp) :
+    den φ (mmul A B) = A.foldr (fun l acc' => B.foldr (fun r acc2 =>
+        l.2 * r.2 * (GQ.sgn (mergeM l.1 r.1).2 * φ (mergeM l.1 r.1).1) + acc2) 0 + acc') 0 := by
+  have := den_double_loop φ (fun l r => ((mergeM l r).1, GQ.sgn (mergeM l r).2)) A B []
+  simp only [den_nil, zero_add'] at this
+  exact this
+
+theorem den_miadd (φ : MTerm → GQ) (A B : MOp) : den φ (miadd A B) = den φ A + den φ B := by
+  unfold miadd
+  induction B generalizing A with
+  | nil => simp [add_zero']
+  | cons e B ih =>
+    simp only [List.foldl_cons, den_cons]
+    rw [ih, maccum_eq, den_gaccum, add_assoc']
 
 end Model
 end OFV
